@@ -36,7 +36,7 @@ def rank_ge(M, k):
     return Or(*alts)
 
 
-def fam_solve(ctx, R_, n, fixed):
+def fam_solve(ctx, R_, n, fixed, dom=None):
     """R_ equations, n unknowns; `fixed` = concrete values of the first len(fixed) entries (row-major by column
     order below), the others range over DOM as solver variables"""
     # column-major numbering so that fixing a prefix fixes leading columns
@@ -46,7 +46,7 @@ def fam_solve(ctx, R_, n, fixed):
         if k < len(fixed):
             M[i][j] = F(fixed[k])
         else:
-            M[i][j] = ctx.choice('m%d%d' % (i, j), DOM)
+            M[i][j] = ctx.choice('m%d%d' % (i, j), dom or DOM)
     A = [row[:-1] for row in M]
     lib_m = [[ctx.lib(x) if not isinstance(x, F) else int(x) for x in row] for row in M]
     st, sol = call(G.solve, [list(r) for r in lib_m])
@@ -98,10 +98,13 @@ def families(tier, seed):
             nfix = 2
         if (R_, n) == (3, 2):
             nfix = 3
+        dom = DOM
         if (R_, n) == (3, 3):
-            nfix = 4
-        for fixed in product(DOM, repeat=nfix):
-            fams.append(Family('solve/%dx%d/%s' % (R_, n, ','.join(map(str, fixed)) or '-'), fam_solve, (R_, n, fixed),
+            # 12 entries: the full {-2..2} domain is out of reach (5^12 matrices explored path-wise); entries over {-1,0,1},
+            # first column enumerated concretely
+            nfix, dom = 3, [-1, 0, 1]
+        for fixed in product(dom, repeat=nfix):
+            fams.append(Family('solve/%dx%d/%s' % (R_, n, ','.join(map(str, fixed)) or '-'), fam_solve, (R_, n, fixed, dom),
                                budget_s=None))
     return fams
 
@@ -122,7 +125,7 @@ META = dict(
                 'rank(A)=rank(A|b) (minor formulas), varargs = unknowns - rank, no None and zero residual.'),
     level_note='exact rational semantics (entries are small integers so float rounding cannot flip a comparison); z3 trusted for unsat',
     technique='symbolic execution of real code (z3, finite-domain reals), all paths; oracle = rank via minors',
-    bounds=dict(shapes='quick: 1x2,1x3,2x2,2x3 unknowns; thorough adds 3x2,3x3', entries='{-2,-1,0,1,2}', free_values='reals in [-3,3]'),
+    bounds=dict(shapes='quick: 1x2,1x3,2x2,2x3 unknowns; thorough adds 3x2,3x3', entries='{-2,-1,0,1,2} (3x3: {-1,0,1})', free_values='reals in [-3,3]'),
     outside_claim=['entries outside {-2..2}', 'more than 3 equations / 3 unknowns'],
     assumptions=['none beyond the entry domain'],
 )
